@@ -4,12 +4,14 @@
 pub mod corpus;
 pub mod net;
 pub mod p28;
+pub mod p28c;
 pub mod p29;
 pub mod p30;
 pub mod p31p;
 pub mod p32;
 pub mod p33;
 pub mod p34p;
+pub mod p39o;
 pub mod p39p;
 pub mod sched;
 
@@ -25,13 +27,55 @@ pub fn hash_vals<T: std::fmt::Debug>(t: &T) -> u64 {
 #[allow(dead_code)]
 fn _unused(_: Val) {}
 
+thread_local! {
+    static PANIC_LOC: std::cell::RefCell<Option<(String, String)>> = const { std::cell::RefCell::new(None) };
+}
+static HOOK: std::sync::Once = std::sync::Once::new();
+
+/// The production-*generated* code (the files `generate_embedded` wrote into e4_gen's OUT_DIR) is
+/// code under test, but simcore's runner only treats panics located under /repo or the cargo
+/// registry as such. This guard chains a panic hook that remembers the location; a panic raised
+/// from a generated file becomes a violation `panic_in_generated_code/<entry>`, every other panic
+/// is re-raised unchanged for simcore to classify (harness code => exit 2).
+pub fn guard(name: &'static str, sim: &mut Sim, f: impl FnOnce(&mut Sim) -> Outcome) -> Outcome {
+    HOOK.call_once(|| {
+        let prev = std::panic::take_hook();
+        std::panic::set_hook(Box::new(move |info| {
+            let msg = if let Some(s) = info.payload().downcast_ref::<&str>() {
+                s.to_string()
+            } else if let Some(s) = info.payload().downcast_ref::<String>() {
+                s.clone()
+            } else {
+                "<non-string panic>".to_string()
+            };
+            let loc = info.location().map(|l| format!("{}:{}", l.file(), l.line())).unwrap_or_default();
+            PANIC_LOC.with(|p| *p.borrow_mut() = Some((msg, loc)));
+            prev(info);
+        }));
+    });
+    PANIC_LOC.with(|p| *p.borrow_mut() = None);
+    match std::panic::catch_unwind(std::panic::AssertUnwindSafe(|| f(sim))) {
+        Ok(o) => o,
+        Err(payload) => {
+            let (msg, loc) = PANIC_LOC.with(|p| p.borrow_mut().take()).unwrap_or_default();
+            let generated = loc.contains("/build/e4_gen-") && loc.contains("/out/");
+            if generated {
+                let file = loc.rsplit('/').next().unwrap_or("").split(':').next().unwrap_or("").to_string();
+                Outcome::fail(simcore::Violation::new(format!("panic_in_generated_code/{name}"), format!("panic at {loc} ({file}): {msg}")), sim.seq)
+            } else {
+                std::panic::resume_unwind(payload)
+            }
+        }
+    }
+}
+
 /// One scenario per corpus entry: `scenarios!(module; a, b, c)`.
 macro_rules! scenarios {
     ($m:ident) => {{
         let mut v: Vec<Scenario> = vec![];
         // fn pointers cannot capture the entry: dispatch through a const-generic index
         fn runner<const I: usize>(sim: &mut Sim) -> Outcome {
-            $m::run(&$m::ENTRIES[I], sim)
+            crate::guard($m::ENTRIES[I].name, sim, |sim| $m::run(&$m::ENTRIES[I], sim))
         }
         seq_macro_lite!(v, runner, $m::ENTRIES.len());
         for (i, s) in v.iter_mut().enumerate() {
@@ -85,10 +129,15 @@ fn main() {
         props: vec![
         Prop {
             id: "C28",
-            scenarios: scenarios!(p28),
-            quick_runs: 300_000,
-            thorough_runs: 30_000_000,
-            rule: "each run picks one corpus flow whose top-level operators use only safe APIs (production-generated code; nondet! only in the trailing observation shims), draws knobs and input items (<= 12 items in total), and executes it twice on the same inputs: canonical schedule (everything released before tick 0, eager network) and a seeded schedule (independent partition of every input into ticks incl. empty ticks; for multi-location flows which location ticks next and how many in-flight messages of each FIFO wire are delivered before a tick). Distinct = distinct hash of (entry, realised decision trace); non-trivial = at least one item flowed AND (the partition differs from all-at-once OR a message crossed the simulated network).",
+            scenarios: {
+                // hand-written corpus (with specs) + composer-generated flows (schedule independence only)
+                let mut v = scenarios!(p28);
+                v.extend(scenarios!(p28c));
+                v
+            },
+            quick_runs: 1_000_000,
+            thorough_runs: 40_000_000,
+            rule: "each run picks one corpus flow whose top-level operators use only safe APIs (production-generated code; nondet! only in the trailing observation shims), draws knobs and input items (<= 12 items in total), and (plus 32 flows emitted per build by a seeded composer that chains safe operators from a table - map/filter/flat_map/filter_map/unique/enumerate/scan/limit/bounded-side join/filter_not_in/cross_singleton/partition, then optionally weaken_ordering/merge/self-join/cross_product and unordered stages, then a terminal stream/fold/reduce/count/max/first/last/threshold; oracle for those: schedule independence only) and executes it twice on the same inputs: canonical schedule (everything released before tick 0, eager network) and a seeded schedule (independent partition of every input into ticks incl. empty ticks; for multi-location flows which location ticks next and how many in-flight messages of each FIFO wire are delivered before a tick). Distinct = distinct hash of (entry, realised decision trace); non-trivial = at least one item flowed AND (the partition differs from all-at-once OR a message crossed the simulated network).",
             time_unit: "ticks",
             real: REAL,
             stubs: STUBS_NET,
@@ -99,13 +148,13 @@ fn main() {
                 "final value of singletons/optionals/keyed singletons = what the per-tick snapshot shim emits in the last tick after idleness",
                 "only the embedded production back end is run (deploy/trybuild glue shares emit_core but is not executed)",
             ],
-            required_probes: &["empty_tick", "multi_item_batch_and_several_ticks", "net_delay", "two_messages_in_flight"],
+            required_probes: &["empty_tick", "multi_item_batch_and_several_ticks", "net_delay", "two_messages_in_flight", "composed_flow_produced_output"],
         },
         Prop {
             id: "C29",
             scenarios: scenarios!(p29),
-            quick_runs: 200_000,
-            thorough_runs: 20_000_000,
+            quick_runs: 1_000_000,
+            thorough_runs: 40_000_000,
             rule: "each run picks one corpus flow with a totally ordered output (map/filter/flat_map_ordered/enumerate/scan/limit/unique/partition/bounded-side joins/TCP hops) or a keyed stream whose per-key order is made observable by an ordered per-key fold (per-key vec/scan/enumerate+limit/fold/reduce/first, cluster->process per member, process->cluster demux), draws input items (<= 12) and executes it under two independently seeded schedules: tick partition, network schedule and - for keyed inputs - two different cross-key interleavings of the same per-key subsequences; keyed flows run a third time with only one key's items. Distinct = distinct hash of (entry, realised decision trace); non-trivial = at least one item flowed AND the two runs differ in partition, interleaving or network schedule.",
             time_unit: "ticks",
             real: REAL,
@@ -120,8 +169,8 @@ fn main() {
         Prop {
             id: "C30",
             scenarios: scenarios!(p30),
-            quick_runs: 400_000,
-            thorough_runs: 40_000_000,
+            quick_runs: 3_000_000,
+            thorough_runs: 200_000_000,
             rule: "each run picks one corpus flow of the form input.batch(&tick, nondet!) -> <tick operators> -> all_ticks() (production-generated code), draws knobs (length <= 8, value/key domain, partition mode), input items per embedded input, and the partition of every input into ticks (all-at-once, singletons, random gaps, bursts, leading/trailing empty ticks; different inputs partitioned independently) plus 2-4 trailing empty ticks. Distinct = distinct hash of (entry, realised decision trace); non-trivial = at least one item flowed AND the partition differs from everything-in-tick-0.",
             time_unit: "ticks",
             real: REAL,
@@ -137,8 +186,8 @@ fn main() {
         Prop {
             id: "C32",
             scenarios: scenarios!(p32),
-            quick_runs: 300_000,
-            thorough_runs: 30_000_000,
+            quick_runs: 2_000_000,
+            thorough_runs: 150_000_000,
             rule: "one corpus flow per library-internal assume_ordering_trusted / assume_retries_trusted call site (Stream::{max,min,first,last,count,is_empty,repeat_with_keys,weaken_ordering,make_totally_ordered,weaken_retries,make_exactly_once}, KeyedStream::{weaken_ordering,make_totally_ordered,weaken_retries,make_exactly_once,value_counts}, KeyedSingleton::{into_singleton x3 code paths, get_max_key}; top-level and in-tick variants), input typed as weakly as the public signature allows. Each run draws an input (<= 6 items per input), applies a seeded transformation admitted by that type (permutation for NoOrder; duplication for AtLeastOnce - anywhere if unordered, directly after the original if totally ordered; cross-key interleaving for keyed inputs with fixed per-key order) and a seeded tick partition. Distinct = distinct hash of (entry, realised decision trace); non-trivial = at least one item flowed AND (the input was actually permuted/duplicated/re-interleaved OR the partition is non-canonical).",
             time_unit: "ticks",
             real: REAL,
@@ -154,8 +203,8 @@ fn main() {
         Prop {
             id: "C33",
             scenarios: scenarios!(p33),
-            quick_runs: 200_000,
-            thorough_runs: 20_000_000,
+            quick_runs: 1_500_000,
+            thorough_runs: 100_000_000,
             rule: "each run picks one corpus flow producing a collection whose type promises monotone growth (count() and other Monotonic singletons, value_counts() = MonotonicValue, keyed folds/reduces = keys only added, keyed first() = BoundedValue observed as a map, counts behind a TCP hop, per-member keyed state), observed by a per-tick snapshot shim; draws inputs (<= 12 items incl. duplicates and late keys) and a seeded tick partition / network schedule and checks the whole per-tick history. Distinct = distinct hash of (entry, realised decision trace); non-trivial = at least one item flowed AND the schedule is non-canonical AND the history holds at least two distinct snapshots.",
             time_unit: "ticks",
             real: REAL,
@@ -170,8 +219,8 @@ fn main() {
         Prop {
             id: "C31p",
             scenarios: scenarios!(p31p),
-            quick_runs: 100_000,
-            thorough_runs: 10_000_000,
+            quick_runs: 500_000,
+            thorough_runs: 50_000_000,
             rule: "secondary (production) leg of C31: each run picks one sliced! corpus program (use::batch on a stream / keyed stream / bounded-value keyed singleton, use::snapshot on count() and on a keyed singleton, use::state and use::state_null) compiled by the production code generator, draws input items (<= 10) and a seeded partition into slices incl. empty slices. Non-trivial = at least one item flowed AND the partition is non-canonical.",
             time_unit: "ticks",
             real: REAL,
@@ -182,8 +231,8 @@ fn main() {
         Prop {
             id: "C34p",
             scenarios: scenarios!(p34p),
-            quick_runs: 100_000,
-            thorough_runs: 10_000_000,
+            quick_runs: 500_000,
+            thorough_runs: 50_000_000,
             rule: "secondary (production) leg of C34: the documented atomic counter / keyed counter pattern (atomic() write path, ack through end_atomic(), reads through a sliced! atomic snapshot) plus the non-atomic variant, production-generated; each run draws uniquely numbered increments and reads and a seeded partition of both into ticks; the history is stamped with tick indices. Non-trivial = increments and reads flowed, the partition is non-canonical AND at least one read was sent in a tick after an observed acknowledgement.",
             time_unit: "ticks",
             real: REAL,
@@ -197,8 +246,8 @@ fn main() {
         Prop {
             id: "C39p",
             scenarios: scenarios!(p39p),
-            quick_runs: 100_000,
-            thorough_runs: 10_000_000,
+            quick_runs: 500_000,
+            thorough_runs: 50_000_000,
             rule: "secondary (production) leg of C39: hydro_std::quorum::collect_quorum / collect_quorum_with_response for (min,max) in {(1,1),(2,2),(2,3),(3,3),(1,3)} (ordered and one unordered instantiation) and request_response::join_responses, production-generated; each run draws a response sequence over <= 3 keys with at most max responses per key and an Ok/Err mix and runs it all-at-once and under a seeded tick partition (for join_responses: metadata registered no later than the response's tick). Non-trivial = at least one response flowed AND the partition is non-canonical.",
             time_unit: "ticks",
             real: &["hydro_std::quorum, hydro_std::request_response (sliced! with use::state_null carry-over)", "hydro_lang production code generation (generate_embedded) + generated DFIR + dfir_rs"],
@@ -209,6 +258,18 @@ fn main() {
                 "the relative order of different keys in the (TotalOrder-typed) output of collect_quorum_with_response is not compared: see FINDINGS.md",
             ],
             required_probes: &["quorum_reached_across_batches", "response_in_later_tick", "empty_tick"],
+        },
+        Prop {
+            id: "C39o",
+            scenarios: scenarios!(p39o),
+            quick_runs: 20_000,
+            thorough_runs: 200_000,
+            rule: "NOT a registered check: reproduces the candidate finding of e4_hydroprod/FINDINGS.md (cross-key order of the TotalOrder-typed output of collect_quorum_with_response depends on tick batching)",
+            time_unit: "ticks",
+            real: REAL,
+            stubs: STUBS,
+            assumptions: &[],
+            required_probes: &[],
         },
         ],
     };
